@@ -203,5 +203,30 @@ def _liou(system):
     return _liouvillian(system._hamiltonian, system._gammas, system._lindblad_operators)
 
 
+def parameterized_system_reuse(inp):
+    """one ParameterizedSystem used for propagators / derivatives with dt1 and then with dt2 (equal parameter rows) must answer
+    like a freshly constructed equal system"""
+    import oqupy
+    sx, sy, sz = [oqupy.operators.sigma(c) for c in 'xyz']
+
+    def mk():
+        return oqupy.ParameterizedSystem(lambda a, b: 0.5 * a * sx + 0.5 * b * sy + 0.1 * sz, gammas=[lambda a, b: 0.05 + 0.01 * a ** 2],
+                                         lindblad_operators=[lambda a, b: sz])
+    params = np.array([[0.3, -0.2], [0.3, -0.2], [0.7, 0.1], [0.3, -0.2]])
+    bad = []
+    for accessor in ('get_propagators', 'get_propagator_derivatives'):
+        used, fresh = mk(), mk()
+        f1 = getattr(used, accessor)(0.2, params)
+        [f1(k) for k in range(2)]
+        a = getattr(used, accessor)(0.4, params)
+        b = getattr(fresh, accessor)(0.4, params)
+        for k in range(2):
+            xa, xb = a(k), b(k)
+            dev = max(float(np.abs(np.array(u) - np.array(v)).max()) for u, v in zip(xa, xb))
+            if dev > 1e-8:
+                bad.append({'accessor': accessor, 'step': k, 'max deviation from a fresh equal system': dev})
+    return {'violates': bool(bad), 'detail': bad[:4]}
+
+
 # thorough tier (bounded native sweeps): (function, inputs, obligation of the open finding it reproduces or None)
-THOROUGH = [('history', {}, None), ('arrays', {}, None)]
+THOROUGH = [('history', {}, None), ('arrays', {}, None), ('parameterized_system_reuse', {}, None)]
